@@ -1147,6 +1147,9 @@ fn parse_arguments(arguments: &[OsString], cwd: &Path) -> CompilerArguments<Pars
                     // sccache and rustc in the incremental scenario:
                     // https://github.com/mozilla/sccache/issues/236
                     ("incremental", _) => cannot_cache!("incremental"),
+                    // `-C save-temps` leaves rustc's intermediate files (bitcode, objects)
+                    // in the output directory; a cached result does not hold them.
+                    ("save-temps", _) => cannot_cache!("save-temps"),
                     (_, _) => (),
                 }
             }
